@@ -12,11 +12,11 @@ import (
 
 func init() {
 	register(&Check{
-		ID:   "C13",
-		Rule: "every civil day in the year set (thorough: all days 1..9998) at noon (plus 00:00:00 and 23:59:59 on days carrying a term): nine-nines, dog days, pentad/phenology, New Year's Eve, Cold Food, spring/autumn She compared with the rule sentences evaluated on the library's own term days and integer day stems; presence AND absence are checked on every day. non-trivial = days on which at least one of the counters/festivals is present by the reference",
-		Assume: []string{"term days are the library's own (C03 decides their correctness)", "geng = stem 6, wu = stem 4 of (JDN+49) mod 60"},
-		Shards: func(tier string, seed int64) []Shard { return yearShards(tier, seed, 9998, "") },
-		Run:    runC13,
+		ID:            "C13",
+		Rule:          "every civil day in the year set (thorough: all days 1..9998) at noon (plus 00:00:00 and 23:59:59 on days carrying a term): nine-nines, dog days, pentad/phenology, New Year's Eve, Cold Food, spring/autumn She compared with the rule sentences evaluated on the library's own term days and integer day stems; presence AND absence are checked on every day. non-trivial = days on which at least one of the counters/festivals is present by the reference",
+		Assume:        []string{"term days are the library's own (C03 decides their correctness)", "geng = stem 6, wu = stem 4 of (JDN+49) mod 60"},
+		Shards:        func(tier string, seed int64) []Shard { return yearShards(tier, seed, 9998, "") },
+		Run:           runC13,
 		MinNontrivial: 100,
 	})
 }
